@@ -29,7 +29,10 @@ from numpy import (
     sum as array_sum,
     zeros,
 )
-from numpy.linalg import lstsq
+from numpy.linalg import (
+    lstsq,
+    norm,
+)
 from numpy.typing import NDArray
 from pyimpspec.circuit.base import Element
 from pyimpspec.circuit.circuit import Circuit
@@ -56,6 +59,16 @@ from .utility import (
     _generate_circuit,
     _generate_time_constants,
 )
+
+
+def _solve(A: NDArray[float64], b: NDArray[float64]) -> NDArray[float64]:
+    # The columns can differ by many orders of magnitude (e.g., resistances
+    # versus reciprocal capacitances at high frequencies), which can cause
+    # the smallest ones to be discarded as noise unless the columns are scaled.
+    scale: NDArray[float64] = norm(A, axis=0)
+    scale[scale == 0.0] = 1.0
+
+    return lstsq(A / scale, b, rcond=None)[0] / scale
 
 
 def _initialize_A_matrix(
@@ -333,7 +346,7 @@ def _real_test(
         admittance=admittance,
     )
     b: NDArray[float64] = _generate_b_vector(test, Z_exp, admittance)
-    x: NDArray[float64] = lstsq(A, b, rcond=None)[0]
+    x: NDArray[float64] = _solve(A, b)
 
     circuit: Circuit = _generate_circuit(
         taus,
@@ -381,7 +394,7 @@ def _real_test(
             admittance,
         )
 
-        corrections: NDArray[float64] = lstsq(A, b, rcond=None)[0]
+        corrections: NDArray[float64] = _solve(A, b)
 
         i: int = len(x) - 1
         tmp: NDArray[float64] = x
@@ -429,7 +442,7 @@ def _imaginary_test(
         admittance,
     )
     b: NDArray[float64] = _generate_b_vector(test, Z_exp, admittance)
-    x: NDArray[float64] = lstsq(A, b, rcond=None)[0]
+    x: NDArray[float64] = _solve(A, b)
 
     circuit: Circuit = _generate_circuit(
         taus,
@@ -466,7 +479,7 @@ def _complex_test(
         admittance,
     )
     b: NDArray[float64] = _generate_b_vector(test, Z_exp, admittance)
-    x: NDArray[float64] = lstsq(A, b, rcond=None)[0]
+    x: NDArray[float64] = _solve(A, b)
 
     circuit: Circuit = _generate_circuit(
         taus,
